@@ -264,6 +264,27 @@ def d1_lists(chk: Check) -> None:
                                for g in sel):
                         problems.append("DEEP does not select the left "
                                         "record by identity-key equality")
+                    # the candidates are the *current* left records:
+                    # a record appended for an earlier right element must
+                    # be found by a later one bearing the same identity
+                    for g in sel:
+                        if not ("==" in src(g) and "id_" in src(g)):
+                            continue
+                        it = src(g.generators[0].iter)
+                        if it == lhs:
+                            continue
+                        kept_current = any(
+                            isinstance(c, ast.Call) and
+                            isinstance(c.func, ast.Attribute) and
+                            src(c.func.value) == it and
+                            c.func.attr in ("append", "add", "insert")
+                            for l in over_rhs for c in ast.walk(l))
+                        if not kept_current:
+                            problems.append(
+                                "DEEP selects its merge target from `{}`, "
+                                "not from the left list being appended to: "
+                                "records appended earlier in this merge are "
+                                "never candidates".format(it))
                     if not any("MergeException" in src(r) for s in tail
                                for r in ast.walk(s)
                                if isinstance(r, ast.Raise)):
@@ -516,6 +537,60 @@ def d2_ladders(chk: Check) -> None:
                      .format(got, want))
 
 
+def d2b_rule_lookup(chk: Check) -> None:
+    """A per-path rule applies to the node at the rule's own coordinates
+    only: the lookup compares node, parent and parentref, conjunctively.
+    (Sibling: DifferConfig uses the same lookup; both are checked.)"""
+    prog = chk.prog
+    chk.rule("C05-D2b", "the per-path rule lookup matches a rule to a node "
+             "only when node, parent and parentref all agree (conjunction "
+             "of exactly these three equalities)", floor=2)
+    for qual in ("MergerConfig._get_config_for",
+                 "DifferConfig._get_config_for"):
+        fi = prog.func(qual)
+        chk.analysed(fi)
+        subject = fi.params()[1]
+        loops = [n for n in walk_local(fi.node) if isinstance(n, ast.For)
+                 and src(n.iter).endswith(".items()")]
+        if len(loops) != 1 or not isinstance(loops[0].target, ast.Tuple):
+            raise AnalysisError("rule loop of {} not found".format(qual))
+        rule_var = src(loops[0].target.elts[0])
+        cfg_var = src(loops[0].target.elts[1])
+        tests = [n for n in walk_local(loops[0]) if isinstance(n, ast.If)
+                 and any(isinstance(r, ast.Return) and r.value is not None
+                         and cfg_var in src(r.value) for r in ast.walk(n))]
+        if len(tests) != 1:
+            raise AnalysisError("rule match test of {} not found".format(
+                qual))
+        test = tests[0].test
+        text = "if " + src(test)[:90]
+        conj = test.values if isinstance(test, ast.BoolOp) and \
+            isinstance(test.op, ast.And) else [test]
+        attrs = set()
+        other = []
+        for c in conj:
+            if isinstance(c, ast.Compare) and len(c.ops) == 1 and \
+                    isinstance(c.ops[0], ast.Eq) and \
+                    isinstance(c.left, ast.Attribute) and \
+                    isinstance(c.comparators[0], ast.Attribute) and \
+                    c.left.attr == c.comparators[0].attr and \
+                    {src(c.left.value), src(c.comparators[0].value)} == \
+                    {rule_var, subject}:
+                attrs.add(c.left.attr)
+            else:
+                other.append(src(c))
+        want = {"node", "parent", "parentref"}
+        if attrs == want and not other:
+            chk.ok("C05-D2b", fi, tests[0], text,
+                   "node, parent and parentref of rule and subject compared")
+        else:
+            chk.fail("C05-D2b", fi, tests[0], text,
+                     "rule lookup compares {} (other terms: {}) instead of "
+                     "node, parent and parentref: a rule would apply to a "
+                     "different node with equal content, or not to its own"
+                     .format(sorted(attrs), other))
+
+
 # ---------------------------------------------------------------- D3 ------
 def d3_exceptions(chk: Check) -> None:
     prog = chk.prog
@@ -629,5 +704,6 @@ def run(chk: Check) -> None:
     d1_lists(chk)
     d1_dicts(chk)
     d2_ladders(chk)
+    d2b_rule_lookup(chk)
     d3_exceptions(chk)
     d4_from_str(chk)
